@@ -151,6 +151,35 @@ def T():
     return None
 
 
+def U():
+    """deleting a space: subs re-derived in edge order; subs of its child spaces not re-derived at all"""
+    out = []
+    m = _reset()
+    S = [m.new_space("S%d" % i) for i in range(4)]
+    S[1].new_cells("m2", formula="lambda: 1")
+    S[3].add_bases(S[2])
+    S[3].add_bases(S[0])
+    S[2].add_bases(S[0])
+    S[0].add_bases(S[1])
+    try:
+        del m.S1
+        left = [s.name for s in (S[0], S[2], S[3]) if "m2" in s.cells]
+        if left:
+            out.append("derived m2 left in %s after deleting its definer" % left)
+    except Exception as e:     # noqa
+        out.append("del model.S1 raised %s" % type(e).__name__)
+    m = _reset()
+    X = m.new_space("X")
+    Ch = X.new_space("Ch")
+    Ch.new_cells("cc", formula="lambda: 1")
+    Ch.r = 3
+    Y = m.new_space("Y", bases=Ch)
+    del m.X
+    if list(Y.cells) or list(Y._own_refs):
+        out.append("Y keeps derived %s %s after its base X.Ch was deleted with X" % (list(Y.cells), list(Y._own_refs)))
+    return "; ".join(out) or None
+
+
 # ------------------------------------------------------------------ C03
 def B():
     """redefining a base cells overwrites copies deriving from an override in between"""
@@ -380,7 +409,7 @@ def R():
     return None
 
 
-ALL = [A, F, G, I, J, K, L, T, B, D, E, a, b, c, H, M, N, O, P, Q, R]
+ALL = [A, F, G, U, I, J, K, L, T, B, D, E, a, b, c, H, M, N, O, P, Q, R]
 
 
 if __name__ == "__main__":
